@@ -47,6 +47,24 @@ CHECKS = {
              'majority guess is determined.',
         technique='AST-generated verification conditions over the real source discharged by z3 (contract-based deductive verification); bounded native replay',
         design_ref='Part III C13'),
+    'C20': dict(
+        category='proof',
+        text='Bounds grammar: geometry_argument / bounds_argument (real bodies, pattern text NUMBER/DECIMAL/bounds_re taken '
+             'from the source and translated from sre_parse with Python\'s real \\d, \\s classes) are executed on an '
+             'unconstrained symbolic string: text taken as bounds is in the documented language, nothing trails the '
+             'last field, box components are the fields in order, everything else is refused (bounds_argument) or '
+             'goes to the GeoJSON / file fallbacks in that order and fails only with ArgumentTypeError; a regex-inclusion '
+             'lemma gives completeness. Handlers: symbolic execution of the three Command.handle bodies against the '
+             'contracts of their callees yields exactly the library-call trace with the options passed through; '
+             'guess_format maps exactly the five extensions; nice_console_errors maps OSError/CommandException/other/'
+             'KeyboardInterrupt to 2/code/3/1; every CommandException site has a non-zero code (AST scan). End-to-end '
+             'equality of files with library results is a bounded native stand-in.',
+        note=TRUST + 'Assumed: PY-RE (regex semantics; any consistent group decomposition), PY-FLOAT-GRAMMAR, PY-JSON, SH-SHAPE, '
+             'SH-BOX; contracts/cli.py stubs for open_dataset, extract_dataframe, to_netcdf_with_fixes, the four writers '
+             '(verified under C05/C15/C17 or IO); argparse wiring (main, add_arguments) only exercised by the bounded '
+             'end-to-end runs. "No partial output after a late failure" is not claimed.',
+        technique='AST-generated verification conditions over the real source with z3 string/regex theory; trace obligations against callee contracts; bounded native end-to-end replay',
+        design_ref='Part III C20'),
 }
 
 NOT_YET = 'check not built yet (work in progress, see DESIGN.md)'
